@@ -30,6 +30,8 @@ func main() {
 		runGrid(R, prop)
 	case "C04":
 		runC04(R)
+	case "C20":
+		runC20(R)
 	case "C13":
 		runC13(R)
 	case "C05":
